@@ -368,26 +368,32 @@ def run_shard(spec, ctx):
     else:
         # modules whose names differ only by a dotted suffix or by case are different modules; the same module asked for
         # with and without the .ckl extension is one module
-        moddir = os.path.join(base, "twins")
-        os.makedirs(moddir, exist_ok=True)
-        for fname, who in (("twin", "plain"), ("twin.v2", "v2"), ("twin.v2.beta", "beta"), ("Twin", "upper")):
-            with open(os.path.join(moddir, fname + ".ckl"), "w") as f:
-                f.write("append(LOADLOG, '%s');\ndef who = '%s';\ndef _hidden = 1;\n" % (fname, who))
-        orders = [["twin", "twin.v2", "twin.v2.beta", "Twin"], ["twin.v2.beta", "twin.v2", "twin", "Twin"], ["Twin", "twin.v2", "twin"], ["twin.v2", "twin"]]
-        for order in orders:
-            for ext in ("", ".ckl"):
-                reqs = "; ".join("require '%s%s' as m%d" % (n_, ext, i_) for i_, n_ in enumerate(order))
-                again = "; ".join("require '%s' as again%d" % (n_, i_) for i_, n_ in enumerate(order))
-                src = "%s; %s; log('who', [%s]); log('again', [%s]); log('loadlog', LOADLOG)" % (
-                    reqs, again, ", ".join("m%d->who" % i_ for i_ in range(len(order))), ", ".join("again%d->who" % i_ for i_ in range(len(order))))
-                whos = {"twin": "plain", "twin.v2": "v2", "twin.v2.beta": "beta", "Twin": "upper"}
-                want = [("who", "[" + ", ".join("'%s'" % whos[n_] for n_ in order) + "]"), ("again", "[" + ", ".join("'%s'" % whos[n_] for n_ in order) + "]"),
-                        ("loadlog", "[" + ", ".join("'%s'" % n_ for n_ in order) + "]")]
-                o, log = run_program(moddir, src)
-                ctx.count("twin_programs")
-                ctx.case(("twins", tuple(order), ext))
-                if o.kind != "value" or log != want:
-                    ctx.violation("C11:module-identity:similar-names", "%s -> %s %r, expected %r" % (src, o.kind, log, want), {"src": src})
+        families = [
+            ("twins", {"twin": "plain", "twin.v2": "v2", "twin.v2.beta": "beta", "Twin": "upper"},
+             [["twin", "twin.v2", "twin.v2.beta", "Twin"], ["twin.v2.beta", "twin.v2", "twin", "Twin"], ["Twin", "twin.v2", "twin"], ["twin.v2", "twin"]]),
+            # names that end in the characters of the extension itself, and names that are prefixes of each other
+            ("suffix-chars", {"Stack": "stack", "Stall": "stall", "Sta": "sta", "Calc": "calc", "Ca": "ca", "pick": "pick", "pi": "pi", "lock.c": "lockc", "kl": "kl", "l": "l"},
+             [["Stack", "Stall", "Sta", "Calc", "Ca"], ["Sta", "Stall", "Stack"], ["Ca", "Calc", "pick", "pi"], ["pi", "pick", "lock.c", "kl", "l"], ["l", "kl", "lock.c", "Stack"]]),
+        ]
+        for famname, whos, orders in families:
+            moddir = os.path.join(base, famname)
+            os.makedirs(moddir, exist_ok=True)
+            for fname, who in whos.items():
+                with open(os.path.join(moddir, fname + ".ckl"), "w") as f:
+                    f.write("append(LOADLOG, '%s');\ndef who = '%s';\ndef _hidden = 1;\n" % (fname, who))
+            for order in orders:
+                for ext, ext2 in (("", ""), (".ckl", ""), ("", ".ckl"), (".ckl", ".ckl")):
+                    reqs = "; ".join("require '%s%s' as m%d" % (n_, ext, i_) for i_, n_ in enumerate(order))
+                    again = "; ".join("require '%s%s' as again%d" % (n_, ext2, i_) for i_, n_ in enumerate(order))
+                    src = "%s; %s; log('who', [%s]); log('again', [%s]); log('loadlog', LOADLOG)" % (
+                        reqs, again, ", ".join("m%d->who" % i_ for i_ in range(len(order))), ", ".join("again%d->who" % i_ for i_ in range(len(order))))
+                    want = [("who", "[" + ", ".join("'%s'" % whos[n_] for n_ in order) + "]"), ("again", "[" + ", ".join("'%s'" % whos[n_] for n_ in order) + "]"),
+                            ("loadlog", "[" + ", ".join("'%s'" % n_ for n_ in order) + "]")]
+                    o, log = run_program(moddir, src)
+                    ctx.count("twin_programs")
+                    ctx.case((famname, tuple(order), ext, ext2))
+                    if o.kind != "value" or log != want:
+                        ctx.violation("C11:module-identity:similar-names", "%s -> %s %r, expected %r" % (src, o.kind, log, want), {"src": src})
         for ci in range(spec["n"]):
             moddir = os.path.join(base, "c%d" % ci)
             os.makedirs(moddir, exist_ok=True)
